@@ -107,9 +107,14 @@ def buildSend (cls tid : Nat) (integ : String) (payload : List (Nat × Bytes)) :
 
 /-- the message `H` hands to `handle_stun`, rebuilt with the Lean builder model: SOFTWARE "peer",
     optional integrity, optional corruption of one HMAC bit -/
-def buildIncoming (kind : String) (tid : Nat) (sign corrupt : String) : Option Bytes := do
+def buildIncoming (kindm : String) (tid : Nat) (sign corrupt : String) : Option Bytes := do
+  -- <kind>[@<method>]
+  let (kind, meth) ← match kindm.splitOn "@" with
+    | [k] => some (k, 1)
+    | [k, m] => (hexNat m).map (k, ·)
+    | _ => none
   let cls := if kind == "ok" then 2 else if kind == "err" then 3 else if kind == "req" then 0 else 1
-  let b0 := Builder.new (Spec.interleave cls 1) tid
+  let b0 := Builder.new (Spec.interleave cls meth) tid
   let b1 ← (b0.add (.typed (.software (asciiBytes "peer")))).toOption
   let (b2, signed) ← match sign.splitOn ":" with
     | ["1", k] => (b1.addIntegrity MsgFam.refHashes (keyCreds k) .sha1).toOption.map (·, true)
